@@ -48,6 +48,13 @@ def run_case(rng, tier, case):
             a['_orders_as_df'] = True
     if g['tz'] is not None and rng.random() < 0.15:
         g['x_zone_in_dates'] = True; case.feature('grid_zone_in_dates_only')
+        # such a grid knows no zone name: naive asset dates cannot be compared with its points (EAO raises), so the assets state their dates zone-aware too
+        def _aware(a):
+            a['_date_form'] = 'aware_utc' if a.get('_date_form') != 'aware_other' else 'aware_other'
+            for x in a.get('assets', []) + ([a['base']] if a.get('base') else []):
+                _aware(x)
+        for a in spec['assets']:
+            _aware(a)
     for a in spec['assets']:
         if a['type'] in ('Plant', 'CHPAsset') and rng.random() < 0.4:
             a['freq'] = g['freq']           # a plant may state the frequency it is meant for (it must equal the grid's, compared as text)
